@@ -353,6 +353,8 @@ def detect_spec_version(stix_dict):
                 (
                     detect_spec_version(obj)
                     for obj in stix_dict.get("objects", [])
+                    if isinstance(obj, collections.abc.Mapping) and
+                    "type" in obj
                 ),
                 default="2.1",
             ),
